@@ -4,7 +4,10 @@ package c02
 import (
 	"fmt"
 	"math"
+	"os"
+	"runtime"
 	"sort"
+	"strconv"
 	"sync"
 	"testing"
 
@@ -16,6 +19,27 @@ import (
 )
 
 func TestMain(m *testing.M) { ev.Main(m, "C02", "exploration") }
+
+// order probes (see ev.ProbeOrders): every encoder at a few inputs incl. the clip points, in generated orders,
+// each order in a fresh process and under a seeded GOMAXPROCS (the tables are built lazily on first use)
+func init() {
+	for _, e := range encoders() {
+		e := e
+		ev.RegisterProbe(e.name, func() string {
+			if n := os.Getenv("VERIF_PROBE_PROCS"); n != "" {
+				if v, err := strconv.Atoi(n); err == nil && v > 0 {
+					runtime.GOMAXPROCS(v)
+				}
+			}
+			for _, b := range []uint32{0, 0x3A83126F, 0x3F000000, 0x3F7FFC00, 0x3F7FFFFF, 0x3F800000, 0x40000000, 0x7F800000, 0xBF800000} {
+				if k, w := e.point(b); k != "" {
+					return w
+				}
+			}
+			return ""
+		})
+	}
+}
 
 type encoder struct {
 	name  string
@@ -348,6 +372,9 @@ func sweepAll(e *encoder) {
 func TestC02(t *testing.T) {
 	es := encoders()
 	if ev.Replaying() != nil {
+		if ev.ReplayOrder(t) {
+			return
+		}
 		var c Case
 		if err := ev.ReplayCase(&c); err != nil {
 			t.Fatal(err)
@@ -371,6 +398,11 @@ func TestC02(t *testing.T) {
 	ev.Rule("inputs are float32 bit patterns. quick: every table-bucket boundary (i±½)/N and i/N for N=255,511,65535 ± {0,1,2} ulp, 64 seeded mantissas in every exponent below 2, special values (±0, subnormals, curve thresholds, 1±ulp, huge, ±Inf, NaN payloads) and negatives; thorough: additionally every one of the 2^32 bit patterns for the nine direct encoders/quantisers, walked in numeric order with the interval oracle evaluated at both ends of every constant run. non-trivial = distinct (encoder, bit pattern) with 0 < x < 1")
 	ev.Set("slack_codes_rel", "max*2^-22")
 	ev.Assume("published OETFs transcribed in internal/ref; NaN inputs are only required not to panic")
+	for _, procs := range []string{"", "3", "5", "6", "7", "12"} {
+		os.Setenv("VERIF_PROBE_PROCS", procs)
+		ev.ProbeOrders(ev.Pick(2, 30))
+	}
+	os.Unsetenv("VERIF_PROBE_PROCS")
 	pts := quickPoints(ev.Seed())
 	ev.Set("quick_points_per_encoder", len(pts))
 	for i := range es {
